@@ -1058,7 +1058,9 @@ func (db *BadgerDB) DeleteAll(ctx storage.Context) error {
 			if bytes.Compare(k, maxKey) > 0 {
 				break
 			}
-			wb.Delete(k)
+			// item.Key() is only valid until the iterator advances, and the write batch
+			// keeps the slice until it is flushed, so the key has to be copied.
+			wb.Delete(item.KeyCopy(nil))
 			if (numKV+1)%BATCH_SIZE == 0 {
 				if err := wb.Flush(); err != nil {
 					dvid.Criticalf("Error on flush of DeleteAll at key-value pair %d: %v\n", numKV, err)
